@@ -357,10 +357,15 @@ Leaves(h, s, hl, f) ==
                   ELSE IF h = "PYGHandler" THEN {PathOf(VSplit(s).real)}
                   ELSE IF lists THEN {p \in Visible(f, dirp) : f[p].k = "pyg"} ELSE {}
         pycs   == {Join(ParentOf(p), "__pycache__") : p \in pygs}
-        caches == IF lists THEN {Join(dirp, CacheName)} ELSE {}
+        \* the ZIP handler keeps an index cache next to every archive it opens
+        zips   == IF ~HasHandler(hl, "ZIPHandler") THEN {}
+                  ELSE IF h = "ZIPHandler" THEN {ZipRootOf(f, s)}
+                  ELSE IF lists THEN {p \in Visible(f, dirp) : f[p].k = "zip"} ELSE {}
+        caches == (IF lists THEN {Join(dirp, CacheName)} ELSE {})
+                  \cup {Join(ParentOf(z), ".cache.pygopherd.zip3." \o BaseName(z, ParentOf(z))) : z \in zips}
     IN [p \in DOMAIN f \cup pycs \cup caches |->
             IF p \in DOMAIN f THEN f[p]
-            ELSE IF p \in caches THEN Node("cache", Cardinality(Visible(f, dirp)))
+            ELSE IF p \in caches THEN Node("cache", IF lists THEN Cardinality(Visible(f, dirp)) ELSE 0)
             ELSE Node("pycache", 0)]
 
 --------------------------------------------------------------------------------
@@ -370,6 +375,7 @@ Leaves(h, s, hl, f) ==
 Txt(s)  == [t |-> "txt",  s |-> s,  n |-> Len(s)]
 Blob(n) == [t |-> "blob", s |-> "", n |-> n]
 MenuC(n) == [t |-> "menu", s |-> "", n |-> n]
+RaiseC == [t |-> "raise", s |-> "", n |-> 0]      \* not a write: the handler raises before writing (see WriteRaises)
 Wr(region, c) == [r |-> region, c |-> c]
 Wrs(region, cs) == [i \in 1..Len(cs) |-> Wr(region, cs[i])]
 NominalSize == 7
@@ -401,7 +407,7 @@ ErrorPlan(fam, method, msg, io) ==
     IN Wrs("handler", ErrorChunks(fam, method, m, io))
 
 \* the writes of a successful response; nw > 0: the measured number of write() calls (C20)
-OkPlan(fam, method, mode, kd, n, sized, gz, nw) ==
+OkPlan(fam, method, mode, kd, n, sized, gz, nw, sub) ==
     LET body == Content(kd, n)
         head == CASE fam = "G"  -> <<>>
                   [] fam = "GP" -> IF mode = "info" THEN <<Txt("+-2" \o CRLF)>>
@@ -415,7 +421,10 @@ OkPlan(fam, method, mode, kd, n, sized, gz, nw) ==
                   [] OTHER -> <<>>
         nbody == IF fam \in {"H", "W"} /\ method = "HEAD" THEN 0
                  ELSE IF nw > Len(head) THEN nw - Len(head) ELSE 1
-        cont == IF fam = "GP" /\ mode = "info" THEN Repeat(Blob(NominalSize), nbody) ELSE Repeat(body, nbody)
+        \* WapSubprocess: wap.py converts text documents through an in-memory file, which has no
+        \* fileno() for the subprocess of ExecHandler / CompressedFileHandler: UnsupportedOperation
+        cont == IF fam = "W" /\ sub /\ nbody > 0 THEN <<RaiseC>>
+                ELSE IF fam = "GP" /\ mode = "info" THEN Repeat(Blob(NominalSize), nbody) ELSE Repeat(body, nbody)
         bodyregion == IF fam \in {"GEM", "S"} THEN "outside" ELSE "try"
     IN Wrs(bodyregion, head) \o Wrs(bodyregion, cont)
 
@@ -471,7 +480,7 @@ NoReq == [line |-> "", tls |-> FALSE, wap |-> FALSE, hl |-> "default", tail |-> 
           fk |-> 0, fcls |-> "none", nw |-> 0, id |-> ""]
 
 Rec(p, e) == [addr |-> Client, proto |-> IF p = "none" THEN "None" ELSE p, cls |-> e.cls, fam |-> e.fam]
-Benign == {"none", "NotFound", "MailboxOSError"}         \* sites that are not defects: a later hazard supersedes them
+Benign == {"none", "NotFound", "MailboxOSError", "WapSubprocess"}         \* sites that are not defects: a later hazard supersedes them
 SetSite(s) == site' = IF site \in Benign /\ s # "none" THEN s ELSE site
 
 ReadLine ==                                     \* rfile.readline()
@@ -554,7 +563,8 @@ Entry ==                                        \* getentry(), prepare(): still 
             /\ log' = IF e.raises.fam = "FileNotFound" THEN Append(log, Rec(proto, e.raises)) ELSE log
             /\ UNCHANGED <<kind, todo, fds, fs>>
        ELSE /\ kind' = IF mode = "info" THEN "info" ELSE e.kind
-            /\ todo' = OkPlan(fam, m, mode, e.kind, e.n, hname \in SizedHandlers, hname = "CompressedFileHandler", rq.nw)
+            /\ todo' = OkPlan(fam, m, mode, e.kind, e.n, hname \in SizedHandlers, hname = "CompressedFileHandler", rq.nw,
+                              hname \in {"ExecHandler", "CompressedFileHandler"} /\ ~rq.tls)
             /\ SetSite(IF fam = "GP" /\ mode = "doc" /\ hname = "CompressedFileHandler" THEN "GzSize" ELSE "none")
             /\ fds' = fds \cup e.opens
             /\ fs' = IF mode = "info" THEN fs ELSE Leaves(hname, sel, rq.hl, fs)
@@ -570,13 +580,19 @@ IOExc(cls) ==                                   \* the injected failure, as the 
       [] cls = "TimeoutError"         -> Exc(cls, "OSError", 1, "timed out")     \* socket.timeout("timed out")
       [] OTHER                        -> Exc(cls, "OSError", 2, "error")
 
+WriteRaises ==                                  \* the handler's write() raises before any byte is written
+    /\ pc = "write" /\ todo # <<>> /\ Head(todo).c.t = "raise"
+    /\ exc' = Exc("UnsupportedOperation", "OSError", 1, "fileno") /\ todo' = <<>> /\ fds' = fds \ {"with"}
+    /\ pc' = "catchP" /\ SetSite("WapSubprocess")
+    /\ UNCHANGED <<rq, proto, sel, hname, kind, out, wn, log, mark, esc, ops, fs>>
+
 WriteOk ==
-    /\ pc = "write" /\ todo # <<>> /\ ~Dead
+    /\ pc = "write" /\ todo # <<>> /\ ~Dead /\ Head(todo).c.t # "raise"
     /\ out' = Append(out, Head(todo).c) /\ todo' = Tail(todo) /\ wn' = wn + 1 /\ ops' = ops + 1
     /\ UNCHANGED <<rq, pc, proto, sel, hname, kind, exc, log, mark, fds, esc, site, fs>>
 
 WriteFail ==                                    \* write() raises: with-blocks unwind, the class propagates
-    /\ pc = "write" /\ todo # <<>> /\ Dead
+    /\ pc = "write" /\ todo # <<>> /\ Dead /\ Head(todo).c.t # "raise"
     /\ wn' = wn + 1 /\ ops' = ops + 1
     /\ exc' = IOExc(rq.fcls)
     /\ mark' = IF mark = -1 THEN Len(log) ELSE mark
@@ -623,7 +639,7 @@ Finish ==                                       \* finish(): flush, close; reque
     /\ pc' = "closed" /\ fds' = fds \ {"gc"} /\ ops' = ops + 1
     /\ UNCHANGED <<rq, proto, sel, hname, kind, exc, todo, out, wn, log, mark, esc, site, fs>>
 
-Step == \/ ReadLine \/ SelectProtocol \/ Parse \/ Lookup \/ Entry \/ WriteOk \/ WriteFail \/ WriteDone
+Step == \/ ReadLine \/ SelectProtocol \/ Parse \/ Lookup \/ Entry \/ WriteOk \/ WriteRaises \/ WriteFail \/ WriteDone
         \/ CatchInProtocol \/ CatchInServer \/ Escape \/ Finish
 
 --------------------------------------------------------------------------------
